@@ -481,6 +481,38 @@ def run(chk):
     # macro/runtime boundary: what the expansion passes at each named hook parameter (read off emit_macros' quote! templates)
     from . import quotes
     quotes.boundary_rule(chk, P, "C04", {"__private_begin_span"}, 3)
+    # "when a span ends the ambient ids revert to its parent's", also for carried frames: the default context's swap / snapshot rules
+    if not getattr(chk, "_overlay", None):
+        c03.thread_local_rules(chk, P, "C04.tl")
+
+    def setup_before_begin():
+        """`#[emit::span(setup: ..)]`: the code the macro generates runs the setup closure *before* it begins the span - begin_span reads the
+        ambient ids (and snapshots the frame), so incoming ids the setup puts in the context must already be there.  In both arms of the
+        macro the setup tokens are spliced into the output ahead of the `__private_begin_span` call."""
+        ev = []
+        for fn in ("inject_sync", "inject_async"):
+            k = "emit_macros::span::" + fn
+            if not P.has_body(k):
+                raise mir.AnchorMissing(k)
+            b = P.body(k)
+            # the setup parameter by position in the (shared) signature of the two arms: the Option<TokenStream> that is neither first nor last ...
+            idx = [i + 1 for i in range(b.argc) if b.local_name(i + 1) == "setup_tokens"]
+            if not idx:
+                idx = [7] if b.argc >= 7 else []
+            if not idx:
+                raise mir.AnchorMissing("the setup parameter of %s" % fn)
+            A = [c for c in b.calls(normal_only=True) if c.callee.get("name") == "to_tokens" and
+                 any(l[0] == "param" and l[1] == b.key and l[2] == idx[0] for l in common.deep_roots(P, b, b.origin(c.args[0])))]
+            B = [c for c in b.calls(normal_only=True) if c.callee.get("name") == "push_ident" and mir.o_const_value(b.origin(c.args[1])) == "__private_begin_span"]
+            if len(A) != 1 or len(B) != 1:
+                return False, "%s splices the setup tokens %d times and begins the span %d times (expected once each)" % (fn, len(A), len(B)), [], b.span
+            if not b.dominates(A[0].bb, B[0].bb) or A[0].bb == B[0].bb:
+                return False, ("%s emits the `setup` code after `__private_begin_span(..)`: the span is begun (ambient ids read, frame snapshotted) before "
+                               "the setup has put the incoming ids into the context, so it starts a fresh trace and hides the incoming ids from its body" % fn), \
+                    [], A[0].loc
+            ev += [A[0].loc, B[0].loc]
+        return True, "", ev
+    chk.ob("C04.S4.macro:setup-before-begin", "the span macro runs `setup` before it begins the span, in both the sync and the async arm", setup_before_begin)
     common.arg_agreement_rule(chk, P, "C04", [("emit", "src/span.rs"), ("emit", "src/macro_hooks.rs"),
                                                ("emit_macros", "src/span.rs"), ("emit", "src/frame.rs")], 20)
     if True:
